@@ -31,7 +31,7 @@ ALL_KINDS = LEAF + COMPOUND
 
 RAISE_KINDS = [
     "r_expr", "r_code2", "r_inline", "r_mexpr", "r_call", "r_filter", "r_code1", "r_code3", "r_codei",
-    "r_modtop", "r_modend", "r_ctl", "r_forloop",
+    "r_modtop", "r_modend", "r_ctl", "r_forloop", "r_base",
 ]
 WARN_KINDS = ["w_expr", "w_is", "w_mexpr", "w_code2", "w_ctl", "w_mod", "w_modwarn", "w_defdefault"]
 TOP_ONLY_PLANTS = {"w_mod", "w_modwarn"}
@@ -477,6 +477,10 @@ class Lowerer:
         elif p == "r_call":
             f.w("${boom()}" + nl)
             ops += [("expr", L, "boom()", None), ("lit", nl)]
+        elif p == "r_base":
+            # a failure that is a BaseException but not an Exception (class picked by the seed)
+            f.w("${bexit()}" + nl)
+            ops += [("expr", L, "bexit()", None), ("lit", nl)]
         elif p == "r_filter":
             f.w("${v | badfilter}" + nl)
             ops += [("expr", L, "v", "badfilter"), ("lit", nl)]
@@ -619,7 +623,7 @@ class Interp:
             return eval(code, g, loc)
         except RefRaise:
             raise
-        except Exception as e:
+        except BaseException as e:  # noqa
             self.fail(e, frame, False)
 
     # -- callables
